@@ -75,7 +75,7 @@ func runC01(c *harness.Ctx, idx int) {
 	}
 	s := cc.S
 	sig := structSig(s)
-	buf := make([]byte, len(want)+64)
+	buf := make([]byte, 2*len(want)+1024) // generous: C01 judges the round trip, not the size
 	er := fEncode(buf, cc.V.Interface())
 	if er.panicked() {
 		c.Violation("encode-panic", "C01/encode-panic/"+panicSig(er)+"/"+sig, "EncodeObject panicked: %v [%s]", er.pv, shortStack(er.stack))
@@ -298,10 +298,20 @@ func runC16(c *harness.Ctx, idx int) {
 	if len(want) > 1 {
 		c.NonTrivial()
 	}
+	spareCapacity(r, s, cc.V.Elem(), 0)
 	before := valSnapshot(s, cc.V.Elem())
+	var pieces []mon.Piece
+	mon.Walk(cc.V.Elem(), "", &pieces)
+	pieces = mon.DropStatic(pieces)
+	image := mon.Image(pieces) // raw bytes of every pointee / slice up to cap / string
+	c.Count("raw_pieces", int64(len(pieces)))
 	check := func(step string) bool {
 		if after := valSnapshot(s, cc.V.Elem()); !bytes.Equal(before, after) {
 			c.Violation("value-modified", "C16/value-modified/"+step+"/"+sig, "%s modified the value it was given (canonical snapshot differs at %d)", step, firstDiff(before, after))
+			return false
+		}
+		if d := mon.CompareImage(pieces, image); d != "" {
+			c.Violation("memory-modified", "C16/memory-modified/"+step, "%s modified memory reachable from the value it was given (spare capacity included): %s", step, d)
 			return false
 		}
 		return true
@@ -351,6 +361,115 @@ func runC16(c *harness.Ctx, idx int) {
 		c.Violation("input-modified", "C16/input-modified/"+sig, "DecodeObject modified its input")
 	}
 	reg.Free()
+	// the same for inputs a foreign or faulty writer may send: bool bytes other
+	// than 0/1, corrupted bytes, truncations - a write into the read-only mapping
+	// faults in the child and is attributed to this step
+	pr := wire.Parse(first)
+	var variants [][]byte
+	if pr.Root != nil {
+		var bools []int
+		collectBools(pr.Root, &bools)
+		if len(bools) > 0 {
+			v := append([]byte(nil), first...)
+			for _, off := range bools {
+				v[off] = byte(2 + r.Intn(254))
+			}
+			variants = append(variants, v)
+			c.Count("bool_bytes_forged", int64(len(bools)))
+		}
+	}
+	for k := 0; k < 6 && len(first) > 1; k++ {
+		v := append([]byte(nil), first...)
+		v[r.Intn(len(v))] ^= byte(1 + r.Intn(255))
+		if k%2 == 0 {
+			v = v[:1+r.Intn(len(v)-1)]
+		}
+		variants = append(variants, v)
+	}
+	for _, v := range variants {
+		in, reg := mon.GuardedCopy(v, true)
+		c.Step("decode hostile variant from read-only input %s type=%s", hexClip(v), s.Describe())
+		if dr := fDecode(in, fresh(s).Interface()); dr.panicked() {
+			c.Violation("decode-panic", "C16/decode-panic/"+panicSig(dr), "DecodeObject panicked: %v", dr.pv)
+		}
+		if !bytes.Equal(in, v) {
+			c.Violation("input-modified", "C16/input-modified/"+sig, "DecodeObject modified its input")
+		}
+		reg.Free()
+	}
 	_ = gen.IDClasses
 	c.Sample(map[string]string{"type": s.Describe(), "bytes": hexClip(first), "spare": fmt.Sprint(extra)})
+}
+
+// collectBools gathers the offsets of every bool value byte of a parsed message.
+func collectBools(n *wire.Node, out *[]int) {
+	switch n.T {
+	case wire.TBool:
+		*out = append(*out, n.Start)
+	case wire.TStruct:
+		for _, f := range n.Fields {
+			collectBools(f.V, out)
+		}
+	default:
+		for _, e := range n.Elems {
+			collectBools(e, out)
+		}
+	}
+}
+
+// spareCapacity re-slices lists, binaries and holders reachable from v so that
+// some have capacity beyond their length, filled with a recognisable pattern
+// (as a value that views a larger receive buffer has).
+func spareCapacity(r *gen.Rand, s *schema.Struct, v reflect.Value, depth int) {
+	grow := func(f reflect.Value) {
+		if f.Kind() != reflect.Slice || f.IsNil() || !f.CanSet() || !r.Chance(1, 2) {
+			return
+		}
+		extra := 1 + r.Intn(9)
+		n := reflect.MakeSlice(f.Type(), f.Len()+extra, f.Len()+extra)
+		reflect.Copy(n, f)
+		if f.Type().Elem().Kind() == reflect.Uint8 {
+			for i := f.Len(); i < n.Len(); i++ {
+				n.Index(i).SetUint(0xEE)
+			}
+		}
+		f.Set(n.Slice3(0, f.Len(), n.Len()))
+	}
+	for _, f := range s.Fields {
+		fv := v.Field(f.Index)
+		switch f.T.K {
+		case schema.Binary, schema.List, schema.Set:
+			if !f.T.Ptr {
+				grow(fv)
+			}
+		case schema.StructK:
+			if depth < 3 {
+				if f.T.Ptr {
+					if !fv.IsNil() {
+						spareCapacity(r, f.T.S, fv.Elem(), depth+1)
+					}
+				} else {
+					spareCapacity(r, f.T.S, fv, depth+1)
+				}
+			}
+		}
+		if (f.T.K == schema.List || f.T.K == schema.Set) && f.T.Elem.K == schema.StructK && f.T.Elem.Ptr && depth < 3 {
+			for i := 0; i < fv.Len(); i++ {
+				if !fv.Index(i).IsNil() {
+					spareCapacity(r, f.T.Elem.S, fv.Index(i).Elem(), depth+1)
+				}
+			}
+		}
+	}
+	if s.HasUnknown && r.Chance(2, 3) {
+		h := ref.Holder(s, v)
+		if len(h) > 0 {
+			n := make([]byte, len(h)+1+r.Intn(8))
+			copy(n, h)
+			for i := len(h); i < len(n); i++ {
+				n[i] = 0xEE
+			}
+			ref.SetHolder(s, v, n[:len(h)])
+		}
+	}
 }
